@@ -92,9 +92,15 @@ class Readers:
         ctor = None
         body = [s for s in f.node.body if not (isinstance(s, ast.Expr) and isinstance(s.value, ast.Constant))]
         pending_raw = None
+        pending_off = 0          # bytes taken by `x = buf[cursor:cursor + K]` that the next read must skip (`cursor + K`)
         for s in body:
             if isinstance(s, ast.Assign) and isinstance(s.value, ast.Call):
                 callee = self.ctx.res.resolve_ref(s.value.func, f)
+                if len(s.value.args) >= 2 and norm(s.value.args[0]) == f.params[0]:
+                    want = 'cursor' if not pending_off else f'cursor + {pending_off}'
+                    if norm(s.value.args[1]) != want:
+                        raise AnalysisError(f'{f.key}: reader call does not continue at `{want}`: {norm(s.value)}')
+                    pending_off = 0
                 var = None
                 t = s.targets[0]
                 if isinstance(t, ast.Tuple) and isinstance(t.elts[0], ast.Name):
@@ -123,6 +129,16 @@ class Readers:
                 if pending_raw is None or const_value(s.value) is None:
                     raise AnalysisError(f'{f.key}: cursor advance without a start snapshot: {norm(s)}')
                 pending_raw[1] = const_value(s.value)
+            elif isinstance(s, ast.Assign) and isinstance(s.value, ast.Subscript) and not pending_raw and isinstance(s.value.slice, ast.Slice) \
+                    and norm(s.value.value) == f.params[0] and isinstance(s.targets[0], ast.Name) \
+                    and norm(s.value.slice.lower) == ('cursor' if not pending_off else f'cursor + {pending_off}') \
+                    and isinstance(s.value.slice.upper, ast.BinOp) and isinstance(s.value.slice.upper.op, ast.Add) \
+                    and norm(s.value.slice.upper.left) == 'cursor' and isinstance(const_value(s.value.slice.upper.right), int) \
+                    and const_value(s.value.slice.upper.right) > pending_off:
+                # x = buf[cursor:cursor + K]: K raw bytes, the cursor itself moves with the next read
+                k_ = const_value(s.value.slice.upper.right)
+                toks.append(('raw', k_ - pending_off, s.targets[0].id))
+                pending_off = k_
             elif isinstance(s, ast.Assign) and isinstance(s.value, ast.Subscript) and pending_raw \
                     and isinstance(s.value.slice, ast.Slice):
                 sl = s.value.slice
@@ -257,25 +273,39 @@ def flat_tokens(rtoks):
 def rule_varint(ctx, rd):
     rv = ctx.func('tx', 'read_varint')
     pv = ctx.func('util', 'pack_varint')
-    # reader: `if n < T: return n, cursor`; `if n == K: return read_le_uintW(...)`; final return
-    rmap, rdirect = {}, None
-    for s in rv.node.body:
-        vc = q.var_vs_const(s.test) if isinstance(s, ast.If) else None
-        if vc is not None:
+    # reader, decided per return path and per value of the first byte (early returns, an if/elif chain assigning a result,
+    # conditional expressions: all the same): which byte values are returned directly, which select which fixed-width read
+    from .. import paths as P
+    first = f'{rv.params[0]}[{rv.params[1]}]'
+    by_byte = {}
+    for pth in P.returns(rv.node):
+        vals = set(range(256))
+        for t, pol, _n in pth.conds:
+            if not isinstance(t, ast.Compare) or len(t.ops) != 1:
+                continue
+            vc = q.var_vs_const(t)
+            if vc is None or vc[0] != first or not isinstance(vc[2], int):
+                continue
             _v, opn, k = vc
-            ret = s.body[0] if s.body and isinstance(s.body[0], ast.Return) else None
-            if opn == '<' and ret is not None:
-                rdirect = k
-            elif opn == '<=' and ret is not None:
-                rdirect = k + 1
-            elif opn == '==' and ret is not None and isinstance(ret.value, ast.Call):
-                nm = norm(ret.value.func)
-                if nm in rd.prims:
-                    rmap[k] = rd.prims[nm][0] or f'non-struct {nm}'
-        elif isinstance(s, ast.Return) and isinstance(s.value, ast.Call):
-            nm = norm(s.value.func)
-            if nm in rd.prims:
-                rmap['else'] = rd.prims[nm][0] or f'non-struct {nm}'
+            sat = {'<': lambda x: x < k, '<=': lambda x: x <= k, '>': lambda x: x > k, '>=': lambda x: x >= k,
+                   '==': lambda x: x == k, '!=': lambda x: x != k}[opn]
+            vals = {x for x in vals if sat(x) == pol}
+        v = pth.value
+        if isinstance(v, ast.Tuple) and len(v.elts) == 2 and norm(v.elts[0]) == first:
+            kind = 'direct'
+        elif isinstance(v, ast.Call) and norm(v.func) in rd.prims:
+            kind = rd.prims[norm(v.func)][0] or f'non-struct {norm(v.func)}'
+        else:
+            kind = f'? {norm(v)[:40]}'
+        for x in vals:
+            by_byte.setdefault(x, set()).add(kind)
+    rmap, rdirect = {}, None
+    direct = sorted(x for x, ks in by_byte.items() if ks == {'direct'})
+    if direct and direct == list(range(len(direct))) and len(by_byte) == 256:
+        rdirect = len(direct)
+        for x in range(rdirect, 256):
+            ks = by_byte.get(x, set())
+            rmap[x] = list(ks)[0] if len(ks) == 1 else f'ambiguous {sorted(ks)}'
     # writer: `if n < T: return pack_byte(n)`; `if n < B: return pack_byte(K) + pack_le_uintW(n)`; final
     wmap, wdirect, bounds = {}, None, {}
     for s in pv.node.body:
@@ -299,12 +329,7 @@ def rule_varint(ctx, rd):
             if nm in rd.st:
                 wmap[k] = rd.st[nm][0]
                 bounds[k] = (bound, rd.st[nm][1])
-    rcmp = dict(rmap)
-    if 'else' in rcmp:
-        rest = [k for k in wmap if k not in rcmp]
-        if len(rest) == 1:
-            rcmp[rest[0]] = rcmp.pop('else')
-    ok = bool(wmap) and rcmp == wmap and rdirect == wdirect and rdirect is not None
+    ok = bool(wmap) and rmap == wmap and rdirect == wdirect and rdirect is not None
     ctx.check(ok, 'C13.VARINT', ctx.key(rv, None, 'vs pack_varint'),
               f'marker->struct tables agree: {sorted(wmap.items())}, direct below {wdirect}',
               'read_varint and pack_varint disagree on marker bytes / widths',
@@ -811,7 +836,8 @@ def rule_hashspan(ctx):
         arg = hashes[0].args[0]
         if isinstance(arg, ast.Subscript) and isinstance(arg.slice, ast.Slice) and norm(arg.value) == args[0]:
             lo, hi = norm(arg.slice.lower), norm(arg.slice.upper)
-            starts = [s for s in q.assigns(ctx, f, lo) if norm(s.value) == args[1]] if arg.slice.lower is not None else []
+            # the start is a snapshot of self.cursor taken before the parse; the parse starts at self.cursor or at that snapshot
+            starts = [s for s in q.assigns(ctx, f, lo) if norm(s.value) == 'self.cursor'] if arg.slice.lower is not None else []
             start_ok = (len(starts) == 1 and starts[0].lineno < ps.lineno and len(q.assigns(ctx, f, lo)) == 1) or lo == args[1] and False
             if endv == 'self.cursor':
                 # `tx, self.cursor = read_tx(...)`: the hash upper bound must be self.cursor read afterwards
@@ -821,7 +847,7 @@ def rule_hashspan(ctx):
                 hi_ok = hi == endv
                 commits = [s for s in q.assigns(ctx, f, 'self.cursor') if norm(s.value) == endv]
                 commit_ok = len(commits) == 1
-            ok = start_ok and hi_ok and commit_ok and args[1] == 'self.cursor'
+            ok = start_ok and hi_ok and commit_ok and args[1] in ('self.cursor', lo)
             why = f'hash over {norm(arg)}; start snapshot ok={start_ok}, end ok={hi_ok}, cursor commit ok={commit_ok}'
     ctx.check(ok, 'C13.HASHSPAN', ctx.key(f, q.stmt(hashes[0])),
               'hash taken over view[start:end] with start the pre-parse cursor and end the cursor returned by that parse; cursor committed to end',
